@@ -149,6 +149,9 @@ struct Ep<S: Read + Write + SetTimeout> {
     /// largest SETTINGS_MAX_FRAME_SIZE this endpoint has ever advertised (16 384 before any)
     max_frame_hi: i64,
     garbled: bool,
+    /// when the last connection-level WINDOW_UPDATEs were sent (sozu's flood detector, C15, answers more than
+    /// ~50 per second of them with GOAWAY(ENHANCE_YOUR_CALM): a checked peer stays below that)
+    wu0_at: VecDeque<Instant>,
 }
 
 fn hdr_size_update(block: &[u8]) -> i64 {
@@ -208,6 +211,7 @@ impl<S: Read + Write + SetTimeout> Ep<S> {
             burst: 0,
             max_frame_hi: 16_384,
             garbled: false,
+            wu0_at: VecDeque::new(),
         };
         e.log(json!({"ev": "reset", "role": if sozu_is_server { "server" } else { "client" }, "label": label, "scen": scen,
                      "recvConn": recv_conn}));
@@ -243,6 +247,16 @@ impl<S: Read + Write + SetTimeout> Ep<S> {
 
     /// ledger + log of a WINDOW_UPDATE; the caller writes the frame
     fn note_wu(&mut self, sid: u32, n: i64) -> Frame {
+        if sid == 0 && !self.cfg.unpaced {
+            // at most 30 connection-level updates per second
+            while self.wu0_at.front().map(|t| t.elapsed() > Duration::from_millis(1000)).unwrap_or(false) { self.wu0_at.pop_front(); }
+            if self.wu0_at.len() >= 30 {
+                let wait = Duration::from_millis(1000).saturating_sub(self.wu0_at.front().unwrap().elapsed());
+                std::thread::sleep(wait);
+                self.wu0_at.pop_front();
+            }
+            self.wu0_at.push_back(Instant::now());
+        }
         self.burst += 1;
         self.log(json!({"ev": "PeerWU", "sid": sid, "n": n}));
         let illegal = n == 0
@@ -1179,8 +1193,15 @@ fn start_worker_logging(name: &str, config: sozu_command_lib::proto::command::Se
              next_id: 0, job: Some(job), backlog: Vec::new() }
 }
 
+static PANICS: Mutex<Vec<String>> = Mutex::new(Vec::new());
+
 fn main() {
-    vh::util::quiet_panics();
+    // panics (of the worker thread: data; of the harness: tool error) are recorded with their location
+    std::panic::set_hook(Box::new(|info| {
+        let bt = std::backtrace::Backtrace::force_capture().to_string();
+        let frames: Vec<&str> = bt.lines().filter(|l| l.contains("sozu") || l.contains("kawa")).take(12).collect();
+        if let Ok(mut p) = PANICS.lock() { p.push(format!("{} | {}", info, frames.join(" <- "))); }
+    }));
     let args: Vec<String> = std::env::args().collect();
     let arg = |k: &str| args.iter().position(|a| a == k).and_then(|i| args.get(i + 1)).cloned();
     let seed: u64 = arg("--seed").and_then(|s| s.parse().ok()).unwrap_or(1);
@@ -1295,7 +1316,7 @@ fn main() {
     vh::util::emit(&json!({"kind": "summary", "scenarios": scenarios.len(), "runs": results.iter().filter(|r| r["kind"] == "run").count(),
         "done": count("done"), "stall": count("stall"), "closed": count("closed"), "inconclusive": count("inconclusive"),
         "garbled": count("garbled"),
-        "worker_panic": worker_panic, "wall_s": t0.elapsed().as_secs_f64(),
+        "worker_panic": worker_panic, "panics": PANICS.lock().map(|p| p.clone()).unwrap_or_default(), "wall_s": t0.elapsed().as_secs_f64(),
         "data_bytes": results.iter().map(|r| r["data_bytes"].as_i64().unwrap_or(0)).sum::<i64>()}));
     std::process::exit(0);
 }
